@@ -67,6 +67,7 @@ func NewRateLimiter(permitsPerSecond int64, options ...Option) *RateLimiter {
 func (l *RateLimiter) Acquire(ctx context.Context, tokens int) (err error) {
 	now := time.Now().UnixNano()
 	last := atomic.LoadInt64(&l.next)
+	verifPoint("rate.afterLoad")
 	permits := float64(now-last)/l.interval - float64(tokens)
 	if permits > l.maxPermits {
 		permits = l.maxPermits
